@@ -51,7 +51,27 @@ def _pure_export(ctx, d, other, which):
     return None
 
 
+def _nonunifiable(ctx):
+    """a document unified() refuses (one activity asserted with two start times), with relations recorded before
+    elements at both levels: exporters that fall back to the original document must still leave it alone"""
+    from harness.common import TIMES, new_doc
+
+    d = new_doc(second_prefix=False)
+    d.wasGeneratedBy("ex:e1", "ex:a1")
+    d.activity("ex:a1", TIMES[0])
+    d.entity("ex:e1", {"ex:k": 1})
+    d.activity("ex:a1", TIMES[1])
+    b = d.bundle("ex:b1")
+    b.used("ex:a2", "ex:e2")
+    b.entity("ex:e2")
+    b.activity("ex:a2", None, TIMES[0])
+    b.activity("ex:a2", None, TIMES[2])
+    return d
+
+
 def _build(ctx, P):
+    if P["gen"] == "nonunifiable":
+        return _nonunifiable(ctx)
     if P["gen"] == "values":
         return DS.values_doc(ctx, P["attr"], P["vk"], P["ns"], P["bundle"], text_kind="text")
     return DS.structure_doc(ctx, P["kind"], P.get("second"), P.get("bundle", False))
@@ -88,6 +108,15 @@ def pure_exports(ctx):
 
 
 def _export(d, which, other):
+    from prov.model import ProvException
+
+    try:
+        return _export1(d, which, other)
+    except ProvException as e:   # a non-unifiable document: the exporter may refuse, but it must refuse the same way every time
+        return ("prov-exception", ALL[which], str(e))
+
+
+def _export1(d, which, other):
     import io
     import prov.graph as pg
     import prov.dot as pdot
@@ -203,6 +232,7 @@ def _all_shards(tier):
         out.append({"gen": "values", "attr": 0, "vk": vk, "ns": 0, "bundle": True, "prefix_kind": "name"})
     for k in range(18):
         out.append({"gen": "structure", "kind": k, "second": "same_kind", "rdf_ok": True})
+    out.append({"gen": "nonunifiable"})
     return out
 
 
@@ -219,7 +249,7 @@ OBLIGATIONS = [
     Obligation(name="all_exports", fn=all_exports, shards=_all_shards,
                desc="Stage A enumerates document-construction paths; on each witness Stage B runs all 15 exporters (json with options, xml +/- force_types, provn, rdf, graph, dot +/- labels, ==, hash, "
                     "unified, flattened, get_provn, lookups) and all 225 ordered pairs: document snapshot unchanged, same output on repetition and on a twin document built by the same calls",
-               bounds="one representative per construction path of 15 value kinds + 3 namespace modes + 18 kinds with a second record", assumptions=_ASSUME,
+               bounds="one representative per construction path of 15 value kinds + 3 namespace modes + 18 kinds with a second record + one document unified() refuses (relations recorded before elements, in the document and in a bundle)", assumptions=_ASSUME,
                functions=["prov.model.ProvDocument.serialize (json/xml/provn/rdf)", "prov.graph.prov_to_graph", "prov.dot.prov_to_dot", "prov.model.*"],
                shims=["lxml / rdflib / networkx / pydot crossed in Stage B only"], best_verdict="PATH_COMPLETE",
                budget_s=(200, 900), per_path_s=(30, 60)),
